@@ -46,7 +46,8 @@ CYCLES = [
     "a = a\n.word a\n", "a = a + 1\n.word a\n", "a = b\nb = a\n.word a\n", "a = b\nb = c\nc = a + {V1}\n.word c\n", "a = b\nb = a\n",
     "lbl: .blkb n\nn = lbl2 - lbl\nlbl2:\n", "x: .blkb y-x\ny:\n", ".blkb a\na: .word 0\n", ".link x\nx = y\ny = x\n", ".link a\na:\n",
     ". = . + q\nq = e - .\ne:\n", "s = t * 2\nt = s / 2 + {V1}\n.byte s\n", ".repeat r { nop }\nr = e - b\nb: .word 0\ne:\n",
-    "a: .blkb b - a\nb: .blkb a - b + {V1}\n", "mov #a, r0\na = a\n", ".align a\na:\n", "a = . + a\n", "br a\na = a + 2\n",
+    "a: .blkb b - a\nb: .blkb a - b + {V1}\n", "mov #a, r0\na = a\n", "c = a\na = a\n", "c = a\na = b\nb = a\n", "mov #c, r0\nc = a\na = a\n",
+    "c = a + {V1}\nd = c\na = b\nb = a\n.word d\n", "a = a\nc = a\n", ".align a\na:\n", "a = . + a\n", "br a\na = a + 2\n",
 ]
 
 
@@ -154,7 +155,7 @@ def obligations(tier, seed):
         for leaf in LEAVES:
             d1.append(wrap(kind, leaf))
     for op in INFIX:
-        for a, b in (("{V1}", "{V2}"), ("DEF", "UNDEF"), (".", "FWD"), ("r1", "{V1}"), ("'a", "17."), ("18", "{V2}"), ("\"ab\"", "{V1}"), ("SELF", "1$")):
+        for a, b in (("{V1}", "{V2}"), ("DEF", "UNDEF"), (".", "FWD"), (".", "{V2}"), ("1$", "{V1}"), ("<1$ - .>", "{V2}"), ("{V1}", "."), ("r1", "{V1}"), ("'a", "17."), ("18", "{V2}"), ("\"ab\"", "{V1}"), ("SELF", "1$")):
             d1.append(f"{a} {op} {b}")
     for a, b in (("{V1}", "r1"), ("DEF", "%{V2}"), ("{V1}", "{V2}"), ("r1", "r2"), (".", "pc"), ("UNDEF", "sp")):
         d1.append(wrap("call", a, b))
